@@ -155,35 +155,40 @@ def mfEps? (s : Style) (tok : String) : Option MF :=
     | some e => if e < 120 then some (MF.decode e) else none
     | none => none
 
-/-- `I(val)`, `lower-1` and `upper+1` stay inside the target type; unsigned targets: the argument is above -1 (for an
-    argument in (-1,0) `lower--` wraps around to the largest value of the type: modelled) -/
+/-- domain of round / trunc in terms of `tr = I(val)`: it is a value of the target type (unsigned: the argument is above -1);
+    `int` and wider signed types additionally keep `lower-1` and `upper+1` inside the type (overflow is undefined behaviour).
+    Unsigned and narrow types reduce modulo `2^bits`, which `roundM` / `truncM` reproduce. -/
+def rtDomain (ity : IType) (tr : Int) : Bool :=
+  if ity.signed && decide (32 ≤ ity.bits) then decide (-(ity.hi - 2) ≤ tr) && decide (tr ≤ ity.hi - 2)
+  else ity.fits tr
+
 def rtInRange (ity : IType) (v : FP f) : Bool :=
   match v with
-  | .fin n =>
-    let t := FP.trunc v
-    if ity.signed then decide (-(ity.hi - 2) ≤ t) && decide (t ≤ ity.hi - 2)
-    else decide (-(2 ^ f.sh : Int) < n) && decide (t ≤ ity.hi - 2)
+  | .fin n => if !ity.signed && decide (n ≤ -(2 ^ f.sh : Int)) then false else rtDomain ity (FP.trunc v)
   | _ => false
 
-/-- the same for the exact ops; an argument in (-1,0) with an unsigned target makes `trunc` compute `T(M) - val` with
-    `M = 2^bits - 1`, which is exact in `T` only for `bits + ew ≤ prec` -/
+/-- the same for the exact ops: either nothing wraps around (`I(val)`, `lower-1`, `upper+1` inside the type), or the full
+    domain; `trunc` converts a wrapped value back to `T` (`T(M) - val`, `M = 2^bits - 1`, …), which is exact in `T` only for
+    `bits + ew ≤ prec` -/
 def rtInRangeQ (ft : FT) (ity : IType) (isRound : Bool) (v : Dy) : Bool :=
   let t := v.trunc
-  if ity.signed then decide (-(ity.hi - 2) ≤ t) && decide (t ≤ ity.hi - 2)
-  else decide (t ≤ ity.hi - 2) &&
-    (!(v < (0 : Dy)) || (Dy.ofInt (-1) < v && (isRound || decide ((ity.bits : Int) + ft.ew ≤ ft.prec))))
+  let noWrap := if ity.signed then decide (-(ity.hi - 2) ≤ t) && decide (t ≤ ity.hi - 2)
+                else !(v < (0 : Dy)) && decide (t ≤ ity.hi - 2)
+  let full := !(ity.signed && decide (32 ≤ ity.bits)) && ity.fits t && !(!ity.signed && !(Dy.ofInt (-1) < v)) &&
+              (isRound || decide ((ity.bits : Int) + ft.ew ≤ ft.prec))
+  noWrap || full
 
-/-- `trunc` to an unsigned type of an argument in (-1,0) that is not 0 within epsilon: the documented result is the integer
-    -1 (not a value of the type) when the direction is downward or the argument is equal to -1 within epsilon.  What the code
-    returns there is not compared (the harness evaluates the same predicate, in the same arithmetic, and prints `unrep`). -/
-def truncUnrep {K : Type} [Zero K] [Neg K] [Sub K] [Mul K] [LT K] [LE K] [DecidableLT K] [DecidableLE K] [IntCast K]
-    (ity : IType) (s : Style) (r : RStyle) (x e : K) : Bool :=
-  !ity.signed && decide (x < ((0 : Int) : K)) && !(eqS s x ((0 : Int) : K) e) &&
-    (r == .downward || r == .towardInf || eqS s (((-1 : Int) : Int) : K) x e)
+/-- `trunc`: the documented result — the one the mathematical-integer model `trunc` computes in the same arithmetic — is not
+    a value of the target type (unsigned type and an argument in (-1,0) truncated downward or equal to -1 within epsilon; an
+    argument beyond the largest value truncated upward; …).  What the code returns there is not compared: the harness
+    evaluates the same predicate, in the same arithmetic, and prints `unrep`. -/
+def truncUnrep {K : Type} [Zero K] [Neg K] [Sub K] [Mul K] [LT K] [LE K] [DecidableLT K] [DecidableLE K] [IntCast K] [Add K]
+    (ity : IType) (s : Style) (r : RStyle) (tr : K → Int) (x e : K) : Bool :=
+  !(ity.fits (trunc s (!ity.signed) r tr x e))
 
-/-- … or the largest value of the type is not a finite number of the (tiny) format -/
+/-- … or (tiny formats only) the largest value of an unsigned type is not a finite number of the format -/
 def truncUnrepFP (ity : IType) (s : Style) (r : RStyle) (x e : FP f) : Bool :=
-  truncUnrep ity s r x e ||
+  truncUnrep ity s r FP.trunc x e ||
     (!ity.signed && decide (x < ((0 : Int) : FP f)) && !(eqS s x ((0 : Int) : FP f) e) && !(((ity.hi : Int) : FP f).isFin))
 
 def showTrunc (unrep : Bool) (v : Int) : String := if unrep then "unrep" else toString v
@@ -259,7 +264,7 @@ def handle (line : String) : String :=
         | some v, some e =>
           if !(rtInRange ity v) then "skip" else
           if op == "fround" then toString (roundM ity s r FP.trunc v e)
-          else showTrunc (truncUnrep ity s r v e) (truncM ity s r FP.trunc v e)
+          else showTrunc (truncUnrep ity s r FP.trunc v e) (truncM ity s r FP.trunc v e)
         | _, _ => "bad-op"
       | _, _, _, _ => "bad-op"
     else
@@ -269,7 +274,7 @@ def handle (line : String) : String :=
       if !(okVal ft v && okEps ft e) then "skip" else
       if !(rtInRangeQ ft ity (op == "round") v) then "skip" else
       let v := v.toRat; let e := e.toRat
-      if op == "round" then toString (roundRatM ity s r v e) else showTrunc (truncUnrep ity s r v e) (truncRatM ity s r v e)
+      if op == "round" then toString (roundRatM ity s r v e) else showTrunc (truncUnrep ity s r trRat v e) (truncRatM ity s r v e)
     | _, _, _, _, _, _ => "bad-op"
   | ["laws", t, st, _, _, _] =>
     match parseFT? t, parseStyle? st with
